@@ -3,7 +3,7 @@
   duplicate-free key lists.  (Own copies: nothing here depends on other properties' lemma files.)
 -/
 import Cog.Sem.GoEquals
-namespace Cog.Sem
+namespace Cog.Sem.GoEq
 open Cog.IR
 
 /-! ### `Json.beq` decides equality -/
@@ -177,4 +177,4 @@ theorem eqEntries_iff {f : GoVal → GoVal → Bool} {z : GoVal} {other : List (
     · intro h
       exact ⟨h k' v' (Or.inl rfl), fun k v e => h k v (Or.inr e)⟩
 
-end Cog.Sem
+end Cog.Sem.GoEq
